@@ -12,32 +12,41 @@ fn cfg() -> Cfg {
     Cfg { policy: OfflineQueuePolicy::PreserveAll, drain: PostReconnectQueueDrainPolicy::None, mode: ProtocolMode::Mqtt5, retries: None, keep_alive: None, ack_timeout: Some(Duration::from_millis(100)) }
 }
 
-/// F-TIMEOUT-CURRENT (C11): QoS2 publish with an ack timeout; PUBREC; the PUBREL is only half encoded (output buffer with
-/// < 4 free bytes) when the ack timeout fires; the next service() after the write completes panics on `unwrap()` of None.
-#[test]
-fn f_timeout_current_panics() {
-    let outcome = std::panic::catch_unwind(|| {
-        let mut h = H::new(cfg());
-        h.connect(false, None).unwrap();
-        let tag = h.submit(Kind::Pub2);
-        h.service(4096).unwrap();
-        h.write_completion().unwrap();
-        let pid = match h.sent_this_connection.last().map(|p| &**p) { Some(MqttPacket::Publish(p)) => p.packet_id, _ => panic!("setup: no publish") };
-        h.deliver(MqttPacket::Pubrec(PubrecPacket { packet_id: pid, ..Default::default() }), 64).unwrap();
-        // a second operation fills the buffer so that the PUBREL (4 bytes) starts but cannot finish
-        h.advance(200);                 // the ack timeout (100 ms after the publish was written) is now due
-        let r = h.service(5);           // capacity 5: first byte(s) of the PUBREL are written, the packet stays current
-        let half_written = h.ps.current_operation.is_some();
-        (half_written, r.is_ok(), h.cur_ok(), { h.write_completion().ok(); std::panic::catch_unwind(std::panic::AssertUnwindSafe(|| { let _ = h.service(4096); })).is_err() })
-    });
-    match outcome {
-        Ok((half_written, first_ok, cur_ok_after, second_panicked)) => {
-            println!("F-TIMEOUT-CURRENT half_written={} service_ok={} current_operation_still_tracked={} next_service_panicked={}", half_written, first_ok, cur_ok_after, second_panicked);
-            // the finding is PRESENT when the operation vanished while current and the next service panics
-            if half_written && !cur_ok_after && second_panicked { println!("FINDING-PRESENT F-TIMEOUT-CURRENT"); } else { println!("FINDING-ABSENT F-TIMEOUT-CURRENT"); }
+/// F-TIMEOUT-CURRENT (C11, C18; fixed): QoS2 publish with an ack timeout; PUBREC; the PUBREL is only half encoded (output buffer
+/// with < 4 free bytes) when the ack timeout comes due. The operation must stay tracked while the encoder needs it (no panic at
+/// the next service), the PUBREL must go out whole, and the operation must then fail with the ack-timeout error, exactly once.
+fn timeout_for_half_written_pubrel() -> Result<(), String> {
+    let mut h = H::new(cfg());
+    h.connect(false, None).map_err(|e| format!("setup {:?}", e))?;
+    let tag = h.submit(Kind::Pub2);
+    h.service(4096).unwrap();
+    h.write_completion().unwrap();
+    let pid = match h.sent_this_connection.last().map(|p| &**p) { Some(MqttPacket::Publish(p)) => p.packet_id, _ => return Err("setup: no publish".into()) };
+    h.deliver(MqttPacket::Pubrec(PubrecPacket { packet_id: pid, ..Default::default() }), 64).unwrap();
+    h.advance(200);                 // the ack timeout (100 ms after the publish was written) is now due
+    let r = h.service(5);           // capacity 5: first byte(s) of the PUBREL are written, the packet stays current
+    if h.ps.current_operation.is_none() { return Err("setup: PUBREL not half-written".into()); }
+    if r.is_err() { return Err(format!("service with the half-written PUBREL failed: {:?}", r.err())); }
+    if !h.cur_ok() { return Err("the ack timeout removed the operation while its PUBREL is half written (current_operation no longer tracked)".into()); }
+    if h.result_count(tag) != 0 { return Err("operation completed while the encoder still needs it".into()); }
+    h.write_completion().map_err(|e| format!("write completion {:?}", e))?;
+    let now = h.now;
+    match h.ps.get_next_service_timepoint(&now) { Some(t) if t <= now => {}, other => return Err(format!("half-written PUBREL, write completed: next service time {:?} is not 'now'", other.map(|t| t.saturating_duration_since(now)))) }
+    let mut rounds = 0;
+    while h.result_count(tag) == 0 && rounds < 4 {
+        rounds += 1;
+        match std::panic::catch_unwind(std::panic::AssertUnwindSafe(|| h.service(4096))) {
+            Err(_) => return Err("service() after the half-written PUBREL panicked".into()),
+            Ok(Err(e)) => return Err(format!("service() after the half-written PUBREL failed: {:?}", e)),
+            Ok(Ok(_)) => {}
         }
-        Err(_) => { println!("FINDING-PRESENT F-TIMEOUT-CURRENT (panic inside the first service)"); }
+        if h.ps.pending_write_completion { h.write_completion().map_err(|e| format!("write completion {:?}", e))?; }
+        if h.result_count(tag) == 0 { let now = h.now; match h.ps.get_next_service_timepoint(&now) { Some(t) if t <= now => {}, other => return Err(format!("PUBREL written, timeout elapsed during the write: next service time {:?} is not 'now'", other.map(|t| t.saturating_duration_since(now)))) } }
     }
+    match h.sent_this_connection.last().map(|p| &**p) { Some(MqttPacket::Pubrel(p)) if p.packet_id == pid => {}, other => return Err(format!("the PUBREL did not go out whole: last packet on the wire {:?}", other.map(|p| crate::mqtt::utils::mqtt_packet_to_str(p)))) }
+    match h.result_of(tag) { Some(Outcome::Err(e)) if e == "AckTimeout" => {}, other => return Err(format!("after the PUBREL was written the due ack timeout must fail the operation; outcome {:?} after {} services", other.map(|o| match o { Outcome::Ok(s) => s, Outcome::Err(s) => s }), rounds)) }
+    if h.result_count(tag) != 1 { return Err("more than one result".into()); }
+    h.check_wf()
 }
 
 /// F-SUBID (C02): the SUBSCRIBE subscription identifier goes out as 0x0B + four bytes instead of 0x0B + Variable Byte Integer.
@@ -141,6 +150,7 @@ fn engine_fixed_findings_stay_fixed() {
     let mut fails: Vec<String> = Vec::new();
     let mut cases = 0;
     let runs: Vec<(&str, Box<dyn Fn() -> Result<(), String>>)> = vec![
+        ("F-TIMEOUT-CURRENT", Box::new(|| timeout_for_half_written_pubrel())),
         ("F-ACK-CURRENT pubcomp", Box::new(|| ack_for_half_written_pubrel(false))),
         ("F-ACK-CURRENT failing-pubrec", Box::new(|| ack_for_half_written_pubrel(true))),
         ("F-CONNACK-EARLY half-encoded", Box::new(|| connack_before_connect_flushed(true))),
@@ -156,7 +166,7 @@ fn engine_fixed_findings_stay_fixed() {
             Err(_) => fails.push(format!("{}: panicked", name)),
         }
     }
-    println!("BOUNDED engine_fixed_findings_stay_fixed cases={} bound=the recorded failing histories of the repaired engine findings (F-ACK-CURRENT, F-CONNACK-EARLY, F-SLOWSTART-WIPED), one replay each", cases);
+    println!("BOUNDED engine_fixed_findings_stay_fixed cases={} bound=the recorded failing histories of the repaired engine findings (F-TIMEOUT-CURRENT, F-ACK-CURRENT, F-CONNACK-EARLY, F-SLOWSTART-WIPED), one replay each", cases);
     for f in &fails { println!("BOUNDED-FAIL engine_fixed_findings_stay_fixed {}", f); }
     assert!(fails.is_empty());
 }
